@@ -280,6 +280,9 @@ void register_fs_options(); // C01_fs.cpp
 void register_parse();      // C01_parse.cpp
 void register_env();        // C01_env.cpp: locales with user facets, throwing user callbacks
 void register_streams();    // C01_stream.cpp: scripted stream buffers, file streams
+void register_more();       // C01_more.cpp: time, error, getenv, type_name, args, string helpers, enum helpers
+void register_more_casts(); // C01_more2.cpp: dynamic / pointer / value casts
+void register_more_math();  // C01_more3.cpp: floating point vector / matrix / interpolation functions, options / parse error output
 
 // For shards in which a defect shows as a hang: every hanging case costs the watchdog time and a restart of the
 // shard.  Call at the start of the shard body; after `max` restarts it returns true and marks the shard as stopped
